@@ -53,6 +53,8 @@ def run(ctx):
                                          out_spelling=f"../o{i}_cwd", cache_tag=f"{i}_cwd")))
         runs.append((i, "trailing_slash", dict(src=src, out=base / f"o{i}_ts", hashseed=0, nc=bool(i % 2), src_spelling=str(src) + "/",
                                                out_spelling=str(base / f"o{i}_ts") + "/", cache_tag=f"{i}_ts")))
+        runs.append((i, "dotdot", dict(src=src, out=base / f"o{i}_dd", hashseed=0, nc=bool(i % 2), src_spelling=f"{root}/{name}/../{name}",
+                                       out_spelling=f"{base}/o{i}_dd/../o{i}_dd", cache_tag=f"{i}_dd")))
         runs.append((i, "repeat", dict(src=src, out=base / f"o{i}_rep", hashseed=0, nc=bool(i % 2), cache_tag=f"{i}_rep")))
     with ThreadPoolExecutor(max_workers=14) as ex:
         outs = list(ex.map(lambda r: implrun.run_cli(**r[2]), runs))
